@@ -48,6 +48,8 @@ harness!(reloc_vec, 8, {
     let (x, y, z): (u32, u32, u32) = (kani::any(), kani::any(), kani::any());
     assert!(v.push(x).is_ok());
     assert!(v.push(y).is_ok());
+    // every read accessor is used BEFORE the move as well: an address resolved lazily and cached in the header would survive
+    assert!(v.as_slice()[0] == x && v.as_slice()[1] == y && v.len() == 2);
     let b = relocate(a);
     let v = &mut *(b as *mut V<u32>);
     assert!(v.len() == 2 && v.as_slice()[0] == x && v.as_slice()[1] == y);
@@ -68,10 +70,13 @@ harness!(reloc_queue, 8, {
     assert!(q.push(x));
     assert!(q.pop() == Some(x));
     assert!(q.push(y));             // ring position 1: wrapped content after the next push
+    // random access and peek BEFORE the move as well (see reloc_vec)
+    assert!(q.get(0) == y && q.peek() == Some(&y));
     let b = relocate(a);
     let q = &mut *(b as *mut Q<u32>);
-    assert!(q.len() == 1 && q.peek() == Some(&y));
+    assert!(q.len() == 1 && q.peek() == Some(&y) && q.get(0) == y);
     assert!(q.push(z));
+    assert!(q.get(1) == z);
     assert!(!q.push(0));
     assert!(q.push_with_overflow(x) == Some(y));
     assert!(q.pop() == Some(z));
@@ -90,6 +95,7 @@ harness!(reloc_string, 10, {
     kani::assume(c1 >= 1 && c1 < 128 && c2 >= 1 && c2 < 128 && c3 >= 1 && c3 < 128);
     assert!(s.push(c1).is_ok());
     assert!(s.push(c2).is_ok());
+    assert!(s.as_bytes()[0] == c1 && s.as_bytes()[1] == c2);
     let b = relocate(a);
     let s = &mut *(b as *mut S);
     assert!(s.len() == 2 && s.as_bytes()[0] == c1 && s.as_bytes()[1] == c2);
